@@ -119,6 +119,8 @@ def shift_model(m, k):
                 r[key] = [(s + d, None if e is None else e + d) for s, e in r[key]]
         if "bookings" in r:
             r["bookings"] = [(s + d, mins) for s, mins in r["bookings"]]
+    if "gleaves" in m2:
+        m2["gleaves"] = [(typ, s + d, None if e is None else e + d) for typ, s, e in m2["gleaves"]]
     if "vacations" in m2:
         m2["vacations"] = [(s + d, None if e is None else e + d) for s, e in m2["vacations"]]
     for t in m2["tasks"]:
